@@ -40,6 +40,25 @@ Theorem C10_lexed_whole :
 Proof. exact lexed_whole. Qed.
 Print Assumptions C10_lexed_whole.
 
+(* parsePrimary never takes an integer literal for a float, whatever digits it contains (-0x7e, 0x1e5: hex digit e) ... *)
+Theorem C10_int_token_kind :
+  forall s : str, wf_lit s = true -> literal_kind s = KInt.
+Proof. exact int_token_kind. Qed.
+Print Assumptions C10_int_token_kind.
+
+(* ... while the exponent forms the lexer takes as one number token are float literals (they were INT before
+   fixes/C10-exponent-float-kind.patch: last conjunct). *)
+Theorem C10_exponent_forms_kind :
+  literal_kind (str_of "1e5") = KFloat /\ literal_kind (str_of "1E5") = KFloat /\ literal_kind (str_of "1e+5") = KFloat /\
+  literal_kind (str_of "-1e-5") = KFloat /\ literal_kind (str_of "1_0e2") = KFloat /\ literal_kind (str_of "1.5") = KFloat /\
+  literal_kind (str_of "-2.5E+0_2") = KFloat /\
+  lex_number (str_of "1e5;") = LexFloat /\ lex_number (str_of "-1_0E-2;") = LexFloat /\
+  literal_kind (str_of "0x1e5") = KInt /\ literal_kind (str_of "-0x7e") = KInt /\ literal_kind (str_of "-0XE") = KInt /\
+  lex_number (str_of "-0x7e;") = LexInt (str_of "-0x7e") (str_of ";") /\
+  literal_kind_orig (str_of "1e5") = KInt.
+Proof. exact exponent_forms_kind. Qed.
+Print Assumptions C10_exponent_forms_kind.
+
 (* Regression theorems about the code as it was before the repair (NewNumericValue with strconv.ParseInt(s, 0, 64) first). *)
 Theorem C10_orig_refuted_leading_zero :
   exists t s, wf_lit s = true /\ accepts_orig t s = true /\ observed_orig t s <> Some (lit_value s).
